@@ -25,6 +25,11 @@ LIBSRC = {
     "pkg_x/sub/__init__.py": "",
     "pkg_x/sub/deep.py": "from mpilot.commands import Command\nclass CmdDeep(Command):\n    pass\n",
     "lib_sub.py": "from mpilot.libraries.eems import basic\nclass Sum(basic.Sum):\n    pass\nclass CmdSub(basic.Copy):\n    pass\n",
+    # a package one of whose modules cannot be imported until a settings file exists
+    "pkg_f/__init__.py": "",
+    "pkg_f/a_first.py": "from mpilot.commands import Command\nclass CmdFa(Command):\n    pass\n",
+    "pkg_f/m_needs_settings.py": "import os\nfrom mpilot.commands import Command\nif not os.path.exists(os.path.join(os.path.dirname(os.path.dirname(__file__)), 'pkg_f_settings')):\n    raise RuntimeError('settings file missing')\nclass CmdFm(Command):\n    pass\n",
+    "pkg_f/z_last.py": "from mpilot.commands import Command\nclass CmdFz(Command):\n    pass\n",
     "pkg_xy.py": "from mpilot.commands import Command\nclass CmdXY(Command):\n    pass\nclass CmdOne(Command):\n    pass\n",
 }
 USER = ["lib_a", "lib_ab", "lib_c", "pkg_x", "pkg_x.one", "pkg_x.sub", "pkg_xy", "lib_sub"]
@@ -139,10 +144,23 @@ def main():
         pre = [["program", list(libs)]] + ([["program", rlibs(rnd)]] if rnd.random() < 0.4 else [])
         h = pre + [["define", mod, nm]] + ([["program", list(libs)]] if rnd.random() < 0.3 else [])
         pjobs.append((h, libs))
+    # a library whose import fails, is repaired and is requested again in the same process: the request gives what it gives in a
+    # fresh process in which the repair has already happened
+    fjobs = []
+    for libs in (["pkg_f"], ["pkg_f", "lib_a"], ["pkg_f.m_needs_settings"], ["pkg_f"]):
+        pre = [["program", list(libs)]] + ([["program", ["pkg_f.a_first"]]] if rnd.random() < 0.5 else [])
+        fjobs.append((pre + [["touch", "pkg_f_settings"]], libs))
     with ThreadPoolExecutor(max_workers=16) as ex:
         res = list(ex.map(lambda j: child(libdir, j[0] + [["program", j[1]]]), jobs))
         pres = list(ex.map(lambda j: (child(libdir, j[0] + [["program", j[1]]]),
                                       child(libdir, [e for e in j[0] if e[0] != "program"] + [["program", j[1]]])), pjobs))
+        fres = []
+        for h, libs in fjobs:      # sequential: they create and remove the settings file in the shared library folder
+            a = child(libdir, h + [["program", libs]])
+            os.remove(os.path.join(libdir, "pkg_f_settings"))
+            b = child(libdir, [["touch", "pkg_f_settings"], ["program", libs]])
+            os.remove(os.path.join(libdir, "pkg_f_settings"))
+            fres.append((a, b))
         bkeys = sorted(baselines)
         bres = list(ex.map(lambda libs: child(libdir, [["program", list(libs)]]), bkeys))
     for k, r in zip(bkeys, bres):
@@ -188,6 +206,13 @@ def main():
                           "what": "Program(libraries=%r) gives %s after the history %r but %s when the earlier Program constructions are left out of that history" % (
                               libs, short(a), h, short(b)),
                           "replay": {"history": h, "libraries": libs, "after_history": a, "without_earlier_programs": b}})
+    for (h, libs), (a, b) in zip(fjobs, fres):
+        oa, ob = a["out"][-1], b["out"][-1]
+        dist["events"]["failed-import histories"] = dist["events"].get("failed-import histories", 0) + 1
+        if oa != ob:
+            fails.append({"sig": "C19:history-dependent",
+                          "what": "Program(libraries=%r) gives %s after a first request failed on a missing settings file that was then created, but %s in a fresh process with the settings file in place" % (libs, short(oa), short(ob)),
+                          "replay": {"history": h, "libraries": libs, "after_history": oa, "fresh": ob}})
     # requesting libraries that define the same command name must fail at construction
     for libs, must in ((("lib_a", "lib_ab"), "dup"), (("pkg_x", "pkg_xy"), "dup"), (("mpilot.libraries.eems",), "dup"), (("lib_sub", "mpilot.libraries.eems.basic"), "dup")):
         b = baselines.get(libs)
